@@ -1,12 +1,12 @@
 (* C09 - Localized objectives measure exactly the global score change of a local edit.
-   For every modelled built-in class other than UniquifyAllKmers (excluded by the property) and
-   AvoidHairpins (not proved yet: covered by the differential run only), every well-formed instance,
+   For every modelled built-in class other than UniquifyAllKmers (excluded by the property),
+   AvoidHairpins included, every well-formed instance,
    every window W inside the sequence and every pair of sequences that differ only inside W:
      score(localized S, s') - score(localized S, s) == score(S, s') - score(S, s),
    and when localization yields nothing the score does not change ([local_delta_law]). *)
 From Coq Require Import ZArith QArith Bool List Lia Ascii String.
 From DC Require Import Model.Base Model.Loc Model.Bio Model.Pattern Model.MSpace Model.Specs
-                       Proofs.SpecsDefs Proofs.SpecsLocalA Proofs.SpecsLocalB Proofs.SpecsLocalC.
+                       Proofs.SpecsDefs Proofs.SpecsLocalA Proofs.SpecsLocalB Proofs.SpecsLocalC Proofs.Hairpins.
 Import ListNotations.
 Open Scope Z_scope.
 Open Scope string_scope.
@@ -20,7 +20,7 @@ Definition c09_side (sp : spec) : Prop :=
   | _ => True
   end.
 Definition c09_class (sp : spec) : bool :=
-  match sp with SUniquify _ _ _ _ _ | SHairpins _ _ _ => false | _ => true end.
+  match sp with SUniquify _ _ _ _ _ => false | _ => true end.
 
 Theorem C09_localized_score_difference_is_global : forall sp w s s',
   c09_class sp = true -> wf_spec sp (zlen s) -> c09_side sp ->
@@ -41,6 +41,7 @@ Proof.
   - apply rare_codons_laws; assumption.
   - apply maximize_cai_laws; assumption.
   - apply harmonize_laws; assumption.
+  - apply hairpins_delta; assumption.
   - apply terminal_gc_laws; assumption.
   - apply length_laws; assumption.
 Qed.
